@@ -38,6 +38,7 @@ def _mk_classes():
             self.ins = c["ins"]
             self.outs = c["outs"]
             self.oid = c.get("oid", 0)
+            self.units = c.get("units", "")
             self.world = world
             self.n_update = 0
             self.n_connect = 0
@@ -53,7 +54,7 @@ def _mk_classes():
             for n in self.ins:
                 self.inputs.add(name=n, time=self.time, grid=fm.NoGrid(), units=None)
             for n in self.outs:
-                self.outputs.add(name=n, time=self.time, grid=fm.NoGrid(), units="")
+                self.outputs.add(name=n, time=self.time, grid=fm.NoGrid(), units=self.units)
             self.create_connector(pull_data=list(self.ins))
 
         def _connect(self, start_time):
